@@ -392,7 +392,18 @@ class Interp:
             except (KeyError, IndexError) as exc:
                 raise ExcRaised(Ref(f'builtin:{type(exc).__name__}'))
         if isinstance(n, ast.JoinedStr):
-            return Opaque('fstring')
+            parts = []
+            for v in n.values:
+                if isinstance(v, ast.Constant):
+                    parts.append(str(v.value))
+                elif isinstance(v, ast.FormattedValue) and v.format_spec is None and v.conversion == -1:
+                    val = self._safe_ev(v.value)
+                    if isinstance(val, (Opaque, Ref, Rec, PyModel)):
+                        return Opaque('fstring')
+                    parts.append(str(val))
+                else:
+                    return Opaque('fstring')
+            return ''.join(parts)
         if isinstance(n, (ast.ListComp, ast.GeneratorExp, ast.SetComp)):
             out = []
             self._comp(n.generators, 0, lambda: out.append(self.ev(n.elt)))
@@ -433,8 +444,11 @@ class Interp:
                     return getattr(recv, fn.attr)(*args)
                 except (ValueError, TypeError, IndexError, ZeroDivisionError, OverflowError) as exc:
                     raise ExcRaised(Ref(f'builtin:{type(exc).__name__}'))
-            if isinstance(recv, dict) and fn.attr == 'get':
-                return recv.get(*args)
+            if isinstance(recv, dict) and fn.attr in ('get', 'items', 'keys', 'values', 'setdefault'):
+                res = getattr(recv, fn.attr)(*args)
+                return list(res) if fn.attr in ('items', 'keys', 'values') else res
+            if isinstance(recv, (set, dict)) and fn.attr in ('add', 'update', 'discard'):
+                return getattr(recv, fn.attr)(*args)
             if isinstance(recv, (list, tuple)) and fn.attr in ('index', 'count'):
                 return getattr(recv, fn.attr)(*args)
             if isinstance(recv, list) and fn.attr in ('append', 'pop', 'extend', 'insert'):
